@@ -108,6 +108,19 @@ def sf_body(ctx, case):
                 warnings.simplefilter("ignore")
                 return sc.calculate_structure_function(phase, **kw)
     ctx.fresh_result(again, sf, "calculate_structure_function")
+    # the same phase in another memory layout (Fortran order, the transposed view of the transposed copy, a strided slice)
+    wide = np.zeros((a, 2 * b), dtype=phase.dtype)
+    wide[:, ::2] = phase
+    for lay_name, lay in (("Fortran-ordered", np.asfortranarray(phase)), ("transposed-view", np.ascontiguousarray(phase.T).T), ("strided", wide[:, ::2])):
+        with np.errstate(all="ignore"):
+            import warnings
+            with warnings.catch_warnings():
+                warnings.simplefilter("ignore")
+                sl = sc.calculate_structure_function(lay, **kw)
+        # (sums run in memory order: equal to rounding, not bit for bit)
+        ctx.require(sl.shape == sf.shape, "calculate_structure_function of a %s phase: %d points instead of %d" % (lay_name, len(sl), len(sf)))
+        if len(sf):
+            ctx.close(sl, sf, 1e-12, "calculate_structure_function of a %s phase == of the C-ordered phase with the same elements" % lay_name, scale=float(np.max(np.abs(sf))) or 1.0, name="memory layout")
     if case["kind"] == "counts":
         return
     # quadratic in amplitude
